@@ -165,16 +165,32 @@ func schedMain(r *vlib.Run, x *searcher) {
 			s.Art = artOf(res.After)
 		}
 		orders := map[string]bool{}
+		lastRoot := ""
 		ex := &vsched.Explorer{Bound: bound + sc.more, Prune: true, MaxExecs: 200_000}
 		ex.Run = func(prefix []int) *vsched.Result {
 			var res *buildResult
 			x.withRoot(func(root string) {
-				if sc.files != nil {
-					writeTree(root, sc.files)
-				} else {
-					writeTree(root, s.files())
+				files := sc.files
+				if files == nil {
+					files = s.files()
 				}
-				res = buildCtl(root, s.V, sc.o, ctlOpts{prefix: prefix, muted: true})
+				if root != lastRoot {
+					writeTree(root, files)
+					lastRoot = root
+				} else {
+					// same sources as last time: only the artefacts have to be put back
+					for _, d := range []string{".dawn", "out", "gen"} {
+						os.RemoveAll(filepath.Join(root, d))
+					}
+					art := map[string]string{}
+					for k, v := range files {
+						if isArtefact(k) {
+							art[k] = v
+						}
+					}
+					writeArtefacts(root, art)
+				}
+				res = buildCtl(root, s.V, sc.o, ctlOpts{prefix: prefix, muted: true, noTree: true})
 			})
 			x.nBuilds.Add(1)
 			n := s.child("explored:" + sc.name)
